@@ -235,6 +235,13 @@ def split_index_lists(n):
             out.append((list(c), 'idx-interior' if interior else 'idx-empty-part'))
     out.append(([n + 1], 'idx-beyond'))
     out.append(([1, n + 2], 'idx-beyond'))
+    # three cut points (four parts): interior where the extent allows it, a repeated one, one beyond the extent
+    out.append(([1, 2, 3], 'idx-interior' if n >= 4 else 'idx-beyond' if n < 3 else 'idx-empty-part'))
+    out.append(([0, n, n + 3], 'idx-beyond'))
+    # descending cut points: outside np.split's documented domain but accepted by it (a[hi:lo] is empty); covered by
+    # splitIdx_elem / splitIdx_inBounds (not by splitIdx_partition, which needs sorted cut points)
+    if n >= 2:
+        out.append(([n, 1], 'idx-unsorted'))
     return out
 
 
@@ -257,7 +264,8 @@ def gen_split(tier, rng):
                 keep = [x for x in lists if x[1] == 'idx-interior']
                 lists = (sample(rng, keep, 2) if few else keep) + \
                     sample(rng, [x for x in lists if x[1] == 'idx-empty-part'], 2 if few else 4) + \
-                    sample(rng, [x for x in lists if x[1] == 'idx-beyond'], 1 if few else 2)
+                    sample(rng, [x for x in lists if x[1] == 'idx-beyond'], 1 if few else 2) + \
+                    sample(rng, [x for x in lists if x[1] == 'idx-unsorted'], 1)
             for il, cls in lists:
                 parts = np.split(a, il, axis=ax)
                 chosen = list(enumerate(parts))
@@ -295,7 +303,7 @@ def gen_sliding_window(tier, rng):
                 yield case('sliding_window shape=%s window=%d axis=%d' % (fmt(s), w, ax), w, ax, ['window=int', axtag(ax)])
         # window tuple, axis None: one window size per axis
         wl = list(itertools.product(*[range(1, e + 1) for e in s]))
-        for w in (wl if tier == 'quick' and r <= 2 else sample(rng, wl, cap)):
+        for w in (wl if r <= 3 and max(s) <= scope(tier)[1] else sample(rng, wl, cap)):      # slidingWindowNone_*
             yield case('sliding_window shape=%s wlist=%s axis=None' % (fmt(s), fmt(w)), tuple(w), None, ['window=tuple', 'axis=None'])
         # window tuple, axis tuple (length 1..2, incl. negative and repeated axes)
         combos = []
@@ -303,7 +311,14 @@ def gen_sliding_window(tier, rng):
             for axs in itertools.product(all_axes(r), repeat=l):
                 for w in itertools.product(range(1, 4 if tier == 'quick' else 5), repeat=l):
                     combos.append((axs, w))
-        for axs, w in sample(rng, combos, cap * 4):
+        # rank <= 3 in the exhaustive extents scope: every axis list of length 1..2 (both spellings, repeats) x every
+        # window list, plus sampled lists of length 3 (slidingWindowList_*); otherwise sampled
+        if r <= 3 and max(s) <= scope(tier)[1]:
+            triples = [(axs, w) for axs in itertools.product(all_axes(r), repeat=3) for w in itertools.product(range(1, 3), repeat=3)]
+            chosen = combos + sample(rng, triples, cap)
+        else:
+            chosen = sample(rng, combos, cap * 4)
+        for axs, w in chosen:
             tags = ['window=tuple', 'axis=tuple', 'alist<0' if any(x < 0 for x in axs) else 'alist>=0']
             if len(set(x % r for x in axs)) < len(axs):
                 tags.append('alist-repeated')
@@ -324,7 +339,10 @@ def offsets(tier):
 
 
 def gen_diagonal(tier, rng):
-    for s in src_shapes(tier, rng):
+    extra = []
+    if tier == 'quick':     # the quick scope stops at rank 3: a few rank-4 sources so that every rank-4 axis pair is run too
+        extra = [[rng.randint(1, 3) for _ in range(4)] for _ in range(4)]
+    for s in src_shapes(tier, rng) + extra:
         r = len(s)
         if r < 2:
             continue
@@ -332,11 +350,11 @@ def gen_diagonal(tier, rng):
         pairs = [(p, q) for p in all_axes(r) for q in all_axes(r) if p % r != q % r]
         for p, q in pairs:
             neg = p < 0 or q < 0
+            # the exhaustive extents scope (rank <= 3 quick, <= 4 thorough): every axis pair (both spellings) x every
+            # offset, so that the general theorems diagonal_shape / _elem / _inBounds are tied to the code on their whole
+            # small scope; the extra rank-4 sources of the quick tier and the sampled larger rank-3 shapes: sampled offsets
             offs = offsets(tier)
-            if tier == 'quick':
-                if r >= 3:
-                    offs = sample(rng, offs, 1 if neg else 3)
-            elif r >= 3:
+            if r > scope(tier)[0] or (r >= 3 and any(e > scope(tier)[1] for e in s)):
                 offs = sample(rng, offs, 1 if neg else 3)
             for off in offs:
                 yield Case('diagonal shape=%s offset=%d axis1=%d axis2=%d' % (fmt(s), off, p, q), H_B,
